@@ -404,6 +404,16 @@ func (x *vfSide) awaitReaders() error {
 // AddRemoteCandidate does asynchronously), so that the step is synchronous.
 func (x *vfSide) addRemote(c Candidate) {
 	if c.TCPType() == TCPTypeActive {
+		// the refusal of TCP-active remote candidates lives in the public method: go through it and wait for the
+		// goroutine it may have started (there must be nothing to wait for)
+		_ = x.a.AddRemoteCandidate(c)
+		for dl := time.Now().Add(5 * time.Second); time.Now().Before(dl); time.Sleep(50 * time.Microsecond) {
+			if !strings.Contains(vfStacks(), "(*Agent).AddRemoteCandidate.func") {
+				break
+			}
+		}
+		_ = x.a.loop.Run(x.a.loop, func(context.Context) {})
+
 		return
 	}
 	x.told[vfCandAddr(c)] = true
